@@ -23,7 +23,7 @@ META = {
 
 
 def run(ctx):
-    variants = [{"impl": "concurrent-basic", "cores": 1}, {"impl": "concurrent-basic", "cores": 3}, {"impl": "concurrent-compact", "cores": 4, "max": (12, 100)}]
+    variants = [{"impl": "concurrent-basic", "cores": 1}, {"impl": "concurrent-basic", "cores": 3}, {"impl": "concurrent-compact", "cores": 4, "max": (8, 100)}]
     interesting = lambda c: any(f["kind"] == "area" for f in c["eff"].values())
     # parallel builders under load (see C36): 150 copies of a source in one compact world, compared token by token with
     # the in-memory builder's world
@@ -34,12 +34,14 @@ def run(ctx):
     bulk = {"impl": "bulk-compact", "cores": 4, "max": (3, 12), "sections": ["bulk"], "replicas": 150, "only": tagged_and_valid}
     sworld.run_static(
         ctx, "C35", 1, variants=variants + [bulk], sections=["concurrent", "problems", "build", "observe"],
-        rule="", max_cases=ctx.pick(40, 300), finish=False, interesting=interesting)
+        rule="", max_cases=ctx.pick(24, 300), finish=False, interesting=interesting)
+    # under the race detector a compact build takes a minute or two: few of them in the quick tier
+    race_variants = variants[:2] + [{"impl": "concurrent-compact", "cores": 4, "max": (3, 60)}]
     return sworld.run_static(
-        ctx, "C35", 1, variants=variants, sections=["concurrent", "problems", "build", "observe"],
+        ctx, "C35", 1, variants=race_variants, sections=["concurrent", "problems", "build", "observe"],
         rule="sources enumerated by TLC (those with an area), each built as basic (1 goroutine) and compact (4 goroutines) "
              "worlds and observed alone and by 8 concurrent goroutines x 3 rounds; run once normally and once under the "
              "race detector; distinct = (impl, cores, source)",
         assumptions=["schedules are sampled by repetition, not enumerated",
                      "the race detector only sees races that occur in the executions driven"],
-        max_cases=ctx.pick(25, 150), interesting=interesting, race=True)
+        max_cases=ctx.pick(12, 150), interesting=interesting, race=True)
